@@ -51,13 +51,6 @@ def applyOp (p : Pool) : Op → Pool × Res
   | .untilClosed => (p.addApi .untilClosed, .none)
   | .gate t o => p.doGate t o
 
-/-- `str(pool)` -/
-def str (p : Pool) : String :=
-  (if p.simple.isSome then "SimpleTaskPool-" else "TaskPool-") ++
-    (match p.name with
-     | some n => if n.isEmpty then toString p.idx else n
-     | none => toString p.idx)
-
 end Pool
 
 /-- an input of the whole system: a constructor call, an operation on pool `i` (with the cancel orders the
@@ -68,13 +61,30 @@ inductive WOp
   | run (k : Nat) (orders : List (List Nat))
 deriving Repr
 
+/-- what a pool was constructed with; never changes afterwards (kept beside the pool, not inside it, so that no
+step function can touch it) -/
+structure Cfg where
+  size0    : Cap                     -- the `pool_size` argument
+  isSimple : Bool                    -- `SimpleTaskPool` rather than `TaskPool`
+  name     : Option String           -- the `name` argument
+  idx      : Nat                     -- index in the class-level list of pools
+deriving Repr, DecidableEq
+
+/-- `str(pool)` -/
+def Cfg.str (c : Cfg) : String :=
+  (if c.isSimple then "SimpleTaskPool-" else "TaskPool-") ++
+    (match c.name with
+     | some n => if n.isEmpty then toString c.idx else n
+     | none => toString c.idx)
+
 structure World where
   pools   : List Pool
+  cfgs    : List Cfg                 -- parallel to `pools`
   ready   : List (Nat × Ref)
   counter : Nat                      -- length of the class-level list of pools
 deriving Repr
 
-def World.init (base : Nat := 0) : World := { pools := [], ready := [], counter := base }
+def World.init (base : Nat := 0) : World := { pools := [], cfgs := [], ready := [], counter := base }
 
 /-- move the handles a pool queued during the last step to the loop's ready queue -/
 def World.drain (w : World) : World :=
@@ -85,17 +95,23 @@ def mkCap : Option Int → Cap
   | none => .inf
   | some v => .fin v.toNat
 
+def notCoroFn : Option SpawnSpec → Bool
+  | some sp => !sp.isCoro
+  | none => false
+
+def negSize : Option Int → Bool
+  | some v => decide (v < 0)
+  | none => false
+
 /-- the constructors: `SimpleTaskPool` checks its function first; the pool is registered in the class-level
 list *before* the size is validated -/
 def World.mkpool (w : World) (size : Option Int) (simple : Option SpawnSpec) (name : Option String) : World × Res :=
-  let notCoro : Bool := match simple with | some sp => !sp.isCoro | none => false
-  if notCoro then (w, .err .notCoroutineFunction)
+  if notCoroFn simple then (w, .err .notCoroutineFunction)
+  else if negSize size then ({ w with counter := w.counter + 1 }, .err .valueError)
   else
-    let neg : Bool := match size with | some v => decide (v < 0) | none => false
-    if neg then ({ w with counter := w.counter + 1 }, .err .valueError)
-    else
-      let p := Pool.init (mkCap size) simple name w.counter
-      ({ w with pools := w.pools ++ [p], counter := w.counter + 1 }, .name p.str)
+    let c : Cfg := { size0 := mkCap size, isSimple := simple.isSome, name := name, idx := w.counter }
+    ({ w with pools := w.pools ++ [Pool.init (mkCap size) simple], cfgs := w.cfgs ++ [c], counter := w.counter + 1 },
+     .name c.str)
 
 def World.step (w : World) : WOp → World × Res
   | .mkpool size simple name => w.mkpool size simple name
@@ -155,17 +171,17 @@ def b01 (b : Bool) : String := if b then "1" else "0"
 def orDash (s : String) : String := if s.isEmpty then "-" else s
 
 /-- the observation of one pool; `seen` = how many entries of its event log were already printed -/
-def Pool.obs (p : Pool) (seen : Nat) : String :=
+def Pool.obs (p : Pool) (c : Cfg) (seen : Nat) : String :=
   let gs := p.names.map fun n => match p.groupIds n with
     | some ids => n ++ ":" ++ "/".intercalate ((sortNat ids).map toString)
     | none => n ++ ":-"
   let evs := (p.log.drop seen).map Ev.show
   let apis := p.apis.zipIdx.map fun (a, i) => s!"{i}:" ++ (match a.outcome with | some o => o.show | none => "pending")
-  s!"nm={p.str} n={p.running.length} c={p.cancelledR.length} e={p.ended.length} f={b01 p.isFull} l={b01 p.locked} s={p.sem.value.show} z={b01 p.closed} g={orDash (";".intercalate gs)} ev={orDash (",".intercalate evs)} api={orDash (",".intercalate apis)} amb={b01 p.ambiguous}"
+  s!"nm={c.str} n={p.running.length} c={p.cancelledR.length} e={p.ended.length} f={b01 p.isFull} l={b01 p.locked} s={p.sem.value.show} z={b01 p.closed} g={orDash (";".intercalate gs)} ev={orDash (",".intercalate evs)} api={orDash (",".intercalate apis)} amb={b01 p.ambiguous}"
 
 def World.obs (w : World) (r : Res) (seen : List Nat) : String :=
   s!"r={r.show} q={w.ready.length}" ++
-    String.join (w.pools.zipIdx.map fun (p, i) => " ## " ++ p.obs (seen.getD i 0))
+    String.join (w.pools.zipIdx.map fun (p, i) => " ## " ++ p.obs (w.cfgs.getD i ⟨.inf, false, none, 0⟩) (seen.getD i 0))
 
 /-- one input, then the observation line (the event logs are ghost history and only ever grow) -/
 def World.apply (w : World) (x : WOp) : World × String :=
